@@ -3,6 +3,7 @@
   One request per line (fields separated by TAB), one reply per line.
 -/
 import Driver.Codec
+import Driver.Conv
 import RevalModel.Impl.RuleSet
 import RevalModel.Spec.OperatorTable
 
@@ -36,6 +37,7 @@ def handle (line : String) : String :=
     match decBinOp op, decTy ta, decTy tb with
     | some op, some a, some b => if (a, b) ∈ op.sig then "1" else "0"
     | _, _, _ => "bad-request supported"
+  | ["conv", op, arg] => handleConv op arg
   | ["ping"] => "pong"
   | _ => "bad-request"
 
